@@ -8,6 +8,8 @@ import DelbDriver.Pretty
 import DelbDriver.Edit
 import DelbDriver.Nav
 import DelbDriver.Guards
+import DelbDriver.Clone
+import DelbDriver.XPathEval
 open Lean DelbDriver
 
 def dispatch (j : Json) : Except String Json := do
@@ -22,6 +24,10 @@ def dispatch (j : Json) : Except String Json := do
   | "edits" => handleEdits j
   | "nav" => handleNav j
   | "guard" => handleGuard j
+  | "clone" => handleClone j
+  | "xpath" => handleXPath j
+  | "locpath" => handleLocPath j
+  | "foc" => handleFoc j
   | "tokenize" => handleTokenize j
   | "reduce_content" => handleReduceContent j
   | _ => throw s!"unknown cmd {cmd}"
